@@ -127,6 +127,27 @@ fn main() {
     let (s1, n1) = if quick { run_space(3, 2, 1) } else { run_space(4, 2, 1) };
     let (s2, n2) = if quick { (Stats::default(), 0) } else { run_space(3, 3, 2) };
 
+    // wide numbers: a component whose value is (or contains) a digit run at or above the u32 / u64 widths, in each
+    // section (release vs local vs pre-release identifier) - every digit must come out exactly, in both formats
+    let s_wide = {
+        use RComp::{Str, UInt, Var as V};
+        let wide: Vec<RComp> = vec![UInt(4294967295), UInt(4294967296), UInt(u64::MAX), Str("20240315141045".into()), Str("Nightly-20240315141045".into()), Str("00099999999999".into()), Str("4294967296.4294967295.x".into()),
+            V(RVar::Ts("compact_datetime".into())), V(RVar::Ts("compact_date".into())), V(RVar::BumpedTimestamp), V(RVar::Custom("k".into())), V(RVar::Distance), V(RVar::BumpedBranch)];
+        let wide_vars: Vec<(&'static str, RVars)> = vec![
+            ("wide_custom_number", RVars { major: Some(1), minor: Some(2), patch: Some(3), distance: Some(4294967296), bumped_branch: Some("build/20240315141045".into()), bumped_timestamp: Some(1710511845), custom: json!({"k": 18446744073709551615u64}), ..Default::default() }),
+            ("wide_custom_text", RVars { major: Some(4294967296), minor: Some(0), patch: Some(u64::MAX), distance: Some(u64::MAX), bumped_branch: Some("0004294967296".into()), bumped_timestamp: Some(4102444800), last_timestamp: Some(1), custom: json!({"k": "id-99999999999999999999"}), ..Default::default() }),
+        ];
+        let base = vec![V(RVar::Major), V(RVar::Minor), V(RVar::Patch)];
+        let mut jobs: Vec<RSchema> = vec![];
+        for w in &wide {
+            jobs.push(RSchema { core: base.clone(), extra_core: vec![], build: vec![Str("b".into()), w.clone()] });
+            jobs.push(RSchema { core: base.clone(), extra_core: vec![V(RVar::PreRelease), w.clone()], build: vec![] });
+            jobs.push(RSchema { core: [base.clone(), vec![w.clone()]].concat(), extra_core: vec![], build: vec![] });
+            jobs.push(RSchema { core: vec![w.clone(), V(RVar::Minor)], extra_core: vec![], build: vec![w.clone()] });
+        }
+        jobs.par_iter().map(|sc| { let mut st = Stats::default(); st.inc("wide_number_schemas"); for (name, v) in &wide_vars { judge(&ctx, sc, name, v, &mut st); } st }).reduce(Stats::default, Stats::merge)
+    };
+
     // smart preset tiers
     let mut s3 = Stats::default();
     for family in ["standard", "calver"] { for variant in ["", "no-context", "context"] {
@@ -204,7 +225,7 @@ fn main() {
     let (d2, _) = run_space(2, 1, 1);
     if d1.digest != d2.digest { machinery_error("determinism replay diverged"); }
 
-    let all = s1.clone().merge(s2.clone()).merge(s3.clone()).merge(s4.clone());
+    let all = s1.clone().merge(s2.clone()).merge(s3.clone()).merge(s4.clone()).merge(s_wide);
     let mut cov = Coverage::default();
     cov.states = all.get("schemas") * asg.len() as u64 + s3.get("tier_cases");
     cov.transitions = all.get("conversions") + s3.get("tier_cli_runs");
